@@ -28,7 +28,7 @@ class C12(PropertyCheck):
         return out
 
     def generate(self, rng, tier):
-        n = 3000 if tier == "quick" else 15000
+        n = 2000 if tier == "quick" else 15000      # quick trimmed from 3000 (wall time under load)
         # F21: one 2^24+5-byte write to a .cmp name is in corpus/C12 (both tiers); two more variants in the thorough tier (each costs ~15 s on the model side)
         cases = fsgen.exhaustive_cases(tier) + (fsgen.size_limit_cases() if tier != "quick" else []) + fsgen.gen_cases(rng, tier, "c12", n, "histories")
         for g in range(7):
